@@ -416,7 +416,42 @@ def run(ctx):
     ctx.sample({"colouring_paths": len(res), "table": "%dx%d, values < %d" % (NEL, NLOC, D)})
     ctx.encode_secs["colouring"] = round(time.time() - t0, 2)
     ctx.log("colouring: %d paths %.1fs" % (len(res), time.time() - t0))
-    # (iii) auxiliary concrete sweep over constructors + thread-count sanity replay
+    # ---------------- (iii) constructors establish the hypothesis of (i): symbolic support mask and option flags
+    t0 = time.time()
+    nsp = 0
+    for mesh in ("T5", "T9") + (("T4", "T6") if ctx.thorough else ()):
+        v, e, d = W.mesh(mesh)
+        g = b.Grid(np.asarray(v, dtype=float), np.asarray(e), np.asarray(d, dtype="uint32"))
+        for kind, deg, fl in (("P", 1, True), ("RWG", 0, True), ("SNC", 0, True), ("DP", 0, False), ("DP", 1, False)):
+            mv, fv, res, ex = W.explore_space_options(b, g, kind, deg, flags=fl)
+            ctx.paths += ex.paths
+            pcs = []
+            for pi, (pc, space, exc) in enumerate(res):
+                pcf = z3.And(*pc) if pc else z3.BoolVal(True)
+                pcs.append(pcf)
+                if exc is not None:
+                    ctx.prove("ctor/%s/%s%d/path%d/raises" % (mesh, kind, deg, pi), z3.BoolVal(False), [z3.Or(*mv), pcf], family="constructors", params={"mesh": mesh, "kind": kind, "deg": deg, "error": "%s: %s" % (type(exc).__name__, str(exc)[:120])}, abs_cons=False, group="constructors")
+                    continue
+                nsp += 1
+                ok = True
+                why = ""
+                for spc in (space, space.localised_space):
+                    cm, l2g, supp = spc.color_map, spc.local2global, spc.support_elements
+                    idx, ptr = spc.get_elements_by_color()
+                    if sorted(int(x) for x in idx) != sorted(int(x) for x in supp):
+                        ok, why = False, "colour slices do not partition the support"
+                    for col in range(len(ptr) - 1):
+                        if any(cm[int(el)] != col for el in idx[ptr[col] : ptr[col + 1]]):
+                            ok, why = False, "colour slice %d contains an element of another colour" % col
+                    for a, c in itertools.combinations([int(x) for x in supp], 2):
+                        if cm[a] == cm[c] and set(int(x) for x in l2g[a]) & set(int(x) for x in l2g[c]):
+                            ok, why = False, "elements %d,%d have the same colour and both write global dof(s) %s" % (a, c, sorted(set(int(x) for x in l2g[a]) & set(int(x) for x in l2g[c])))
+                ctx.prove("ctor/%s/%s%d/path%d" % (mesh, kind, deg, pi), z3.BoolVal(ok), [z3.Or(*mv), pcf], family="constructors", params={"mesh": mesh, "kind": kind, "deg": deg, "why": why}, abs_cons=False, group="constructors")
+            ctx.prove("ctor/%s/%s%d/paths-cover" % (mesh, kind, deg), z3.Or(pcs), [z3.Or(*mv)], family="constructors", params={"mesh": mesh, "kind": kind, "deg": deg}, abs_cons=False, group="constructors")
+    ctx.sample({"constructor_paths_checked": nsp})
+    ctx.encode_secs["constructors"] = round(time.time() - t0, 2)
+    ctx.log("constructors: %d spaces (paths) %.1fs" % (nsp, time.time() - t0))
+    # auxiliary concrete sweep over constructors (larger meshes, dual/barycentric spaces) + thread-count sanity replay
     ctx.concrete("constructors", "constructors", {})
     ctx.concrete("threads", "threads", {})
 
